@@ -60,7 +60,7 @@ class JoinWorld:
     object and the connection as they were: later transactions commit and
     abort as usual."""
 
-    def __init__(self, explicit):
+    def __init__(self, explicit, multi=False):
         import transaction
         env.reset_globals()
         from mc import dbworld, hclasses
@@ -68,7 +68,15 @@ class JoinWorld:
         MS = env.mod('ZODB.MappingStorage').MappingStorage
         DB = env.mod('ZODB.DB').DB
         self.explicit = explicit
-        self.dbs = {n: DB(MS(n)) for n in 'ab'}
+        self.multi = multi
+        if multi:
+            # one multi-database: 'a' is the primary connection, 'b' the
+            # secondary one it hands out
+            reg = {}
+            self.dbs = {n: DB(MS(n), databases=reg, database_name=n)
+                        for n in 'ab'}
+        else:
+            self.dbs = {n: DB(MS(n)) for n in 'ab'}
         self.violations = []
         self.dead = False
         self.vcount = 0
@@ -85,7 +93,11 @@ class JoinWorld:
             self.committed[n] = o.v
         self.current = dict(self.committed)
         self.tm = transaction.TransactionManager(explicit=explicit)
-        self.conns = {n: db.open(self.tm) for n, db in self.dbs.items()}
+        if multi:
+            ca = self.dbs['a'].open(self.tm)
+            self.conns = {'a': ca, 'b': ca.get_connection('b')}
+        else:
+            self.conns = {n: db.open(self.tm) for n, db in self.dbs.items()}
         self.objs = {}
         if explicit:
             self.tm.begin()
@@ -123,6 +135,8 @@ class JoinWorld:
             ops += [('commit',), ('commit-fail',)]
         if self.state in ('active', 'failed'):
             ops.append(('abort',))
+        if self.multi:
+            ops.append(('close',))
         return ops
 
     def apply(self, op):
@@ -173,6 +187,42 @@ class JoinWorld:
                 self.tm.abort()
                 self.current = dict(self.committed)
                 self.state = idle
+            elif k == 'close':
+                # closing the primary: refused while it or its secondary
+                # takes part in a transaction - and then nothing has
+                # happened; otherwise both go back to the pool
+                CSE = env.mod('ZODB.POSException').ConnectionStateError
+                # (a connection takes part from its first modification to
+                # the end - or the failure - of the commit)
+                joined = self.state == 'active' and \
+                    self.current != self.committed
+                dirty = False
+                try:
+                    self.conns['a'].close()
+                    got = 'closed'
+                except CSE:
+                    got = 'refused'
+                want = 'refused' if (dirty or joined) else 'closed'
+                if got != want:
+                    self.bad('close', 'join:multi:%s-instead-of-%s' % (
+                        got, want), dict(op=op, state=self.state))
+                    self.dead = True
+                    return
+                if got == 'closed':
+                    if self.state in ('active', 'failed'):
+                        self.tm.abort()
+                        self.current = dict(self.committed)
+                        self.state = idle
+                    ca = self.dbs['a'].open(self.tm)
+                    self.conns = {'a': ca, 'b': ca.get_connection('b')}
+                    if self.explicit:
+                        self.tm.begin()
+                    for n2, c2 in self.conns.items():
+                        self.objs[n2] = c2.root()['o']
+                        self.objs[n2].v
+                    if self.explicit:
+                        self.tm.abort()
+                        self.state = 'none'
         except Exception as e:      # noqa: B902
             self.bad('error', 'join:%s:%s' % (k, type(e).__name__),
                      dict(op=op, error=repr(e)[:200]))
@@ -208,14 +258,14 @@ class JoinWorld:
                              dict(db=n))
 
 
-def join_subtree(explicit, prefix, depth):
+def join_subtree(explicit, prefix, depth, multi=False):
     from mc import schedx
     env.install()
     res = schedx._new_res()
     seen = set()
 
     def dfs(hist):
-        w = JoinWorld(explicit)
+        w = JoinWorld(explicit, multi)
         try:
             for op in hist:
                 w.apply(op)
@@ -237,7 +287,7 @@ def join_subtree(explicit, prefix, depth):
                         seen.add(fs)
                         res['violations'].append((
                             'C11.' + c, fs, dict(join=dict(
-                                explicit=explicit,
+                                explicit=explicit, multi=multi,
                                 history=[list(o) for o in hist])), d, 1))
                 return
             if len(hist) >= depth or w.dead:
@@ -264,8 +314,9 @@ def run(rep, tier, seed, workers):
         'commit, and what an observer connection sees are compared with the '
         'model; plus all sequences over {begin, modify a / b, commit, commit '
         'failing in another participant\'s vote, abort} for two databases '
-        'whose connections share one transaction manager, explicit and '
-        'implicit mode, where a modification outside a transaction or '
+        'whose connections share one transaction manager (independent, and '
+        'as primary and secondary connection of one multi-database, there '
+        'with close of the primary), explicit and implicit mode, where a modification outside a transaction or '
         'inside a failed one must be refused and change nothing; '
         'non-trivial = sequence of at least two steps')
     states = 0
@@ -285,11 +336,13 @@ def run(rep, tier, seed, workers):
     before = rep.cov.get('states', 0)
     tasks = []
     for explicit in (True, False):
-        w = JoinWorld(explicit)
-        first = w.enabled()
-        w.close()
-        for op in first:
-            tasks.append((MOD, 'join_subtree', (explicit, [list(op)], jd)))
+        for multi in (False, True):
+            w = JoinWorld(explicit, multi)
+            first = w.enabled()
+            w.close()
+            for op in first:
+                tasks.append((MOD, 'join_subtree',
+                              (explicit, [list(op)], jd - multi, multi)))
     par.run_tasks(tasks, workers, rep, seed)
     rep.bounds['refused-join family depth'] = jd
     rep.cov['states'] = max(states, 1) + rep.cov.get('states', 0) - before
@@ -301,7 +354,8 @@ def run(rep, tier, seed, workers):
 def replay(w):
     if 'join' in w['witness']:
         j = w['witness']['join']
-        r = join_subtree(j['explicit'], j['history'], len(j['history']))
+        r = join_subtree(j['explicit'], j['history'], len(j['history']),
+                         j.get('multi', False))
         viol = [(v[0].split('.', 1)[1], v[1].split(':', 1)[1], v[3])
                 for v in r['violations']]
     else:
